@@ -80,7 +80,11 @@ extern ssize_t mpt_queue_peek(MPT_STRUCT(decode_queue) *qu, size_t max, void *ds
 	qu->_state.curr += off;
 	len = qu->_state.data.len;
 	
-	if (ret < 0 || !dst) {
+	/* preview refused: nothing is copied */
+	if (ret < 0 && dst) {
+		return ret;
+	}
+	if (!dst) {
 		return len;
 	}
 	/* get data start and length */
